@@ -140,7 +140,9 @@ TypeIs(name, v) ==
 TypeOk(t, v) == IF t[1] = "str" THEN TypeIs(t[2], v)
                 ELSE \E j \in 1..Len(t[2]) : TypeIs(t[2][j][2], v)      \* array form: valid if it matches any listed type
 SeqElems(a) == { a[j] : j \in 1..Len(a) }
-IsSchemaVal(x) == x[1] \in {"obj", "bool"}
+\* a schema is an object; from Draft 6 on also a boolean (C d6 4.4).  In Draft 4 the booleans allowed for
+\* additionalProperties / additionalItems are keyword values, not schemas.
+IsSchemaVal(d, x) == x[1] = "obj" \/ (x[1] = "bool" /\ Rank(d) >= 6)
 
 -----------------------------------------------------------------------------
 (* Subschema positions of a schema document (C: the keywords whose values  *)
@@ -158,12 +160,12 @@ RECURSIVE Subs(_, _)
 Subs(d, s) ==
   IF s[1] # "obj" THEN {s}
   ELSE LET f == s[2]
-           one == UNION { IF S(OneSchemaKw[n]) \in DOMAIN f /\ IsContainerKw(d, OneSchemaKw[n]) /\ IsSchemaVal(f[S(OneSchemaKw[n])])
+           one == UNION { IF S(OneSchemaKw[n]) \in DOMAIN f /\ IsContainerKw(d, OneSchemaKw[n]) /\ IsSchemaVal(d, f[S(OneSchemaKw[n])])
                           THEN Subs(d, f[S(OneSchemaKw[n])]) ELSE {} : n \in 1..Len(OneSchemaKw) }
            many == UNION { IF S(SeqSchemaKw[n]) \in DOMAIN f /\ IsContainerKw(d, SeqSchemaKw[n]) /\ f[S(SeqSchemaKw[n])][1] = "arr"
                            THEN UNION { Subs(d, x) : x \in SeqElems(f[S(SeqSchemaKw[n])][2]) } ELSE {} : n \in 1..Len(SeqSchemaKw) }
            maps == UNION { IF S(MapSchemaKw[n]) \in DOMAIN f /\ IsContainerKw(d, MapSchemaKw[n]) /\ f[S(MapSchemaKw[n])][1] = "obj"
-                           THEN UNION { IF IsSchemaVal(f[S(MapSchemaKw[n])][2][k]) THEN Subs(d, f[S(MapSchemaKw[n])][2][k]) ELSE {}
+                           THEN UNION { IF IsSchemaVal(d, f[S(MapSchemaKw[n])][2][k]) THEN Subs(d, f[S(MapSchemaKw[n])][2][k]) ELSE {}
                                         : k \in DOMAIN f[S(MapSchemaKw[n])][2] } ELSE {} : n \in 1..Len(MapSchemaKw) }
        IN {s} \cup one \cup many \cup maps
 
@@ -186,7 +188,7 @@ ResolveRef(d, root, r) ==
   ELSE IF Len(r) >= 2 /\ r[1] = 35 /\ r[2] = 47 THEN
     LET pp == ParsePtr(Tail(r)) IN
     IF ~IsOk(pp) THEN Err
-    ELSE LET g == Get(root, pp[2]) IN IF IsOk(g) /\ IsSchemaVal(g[2]) THEN g ELSE Err
+    ELSE LET g == Get(root, pp[2]) IN IF IsOk(g) /\ IsSchemaVal(d, g[2]) THEN g ELSE Err
   ELSE IF Len(r) >= 2 /\ r[1] = 35 THEN
     LET c == { x \in Subs(d, root) : AnchorName(d, x) = Tail(r) } IN
     IF Cardinality(c) = 1 THEN Ok(CHOOSE x \in c : TRUE) ELSE Err
